@@ -134,4 +134,34 @@ def violations (w : World) (base : Scope) (gs : List GroupReq) (o : Observed) : 
 def specHolds (w : World) (base : Scope) (gs : List GroupReq) (o : Observed) : Bool :=
   (violations w base gs o).isEmpty
 
+/-! ## fully-qualified names: dependency-first package resolution -/
+
+/-- `k` is reached from `i` through at most `n` import edges -/
+inductive ReachN (g : DGraph) : Nat → Nat → Nat → Prop
+  | here (n i : Nat) (p : DPkg) : g[i]? = some p → ReachN g n i i
+  | step (n i j k : Nat) (p : DPkg) : g[i]? = some p → j ∈ p.imports → ReachN g n j k → ReachN g (n + 1) i k
+
+/-- the packages the analysed program uses: everything reachable from the analysed package through imports -/
+def Uses (g : DGraph) (root d : Nat) : Prop := ∃ n, ReachN g n root d
+
+/-- executable: the indices reachable within `fuel` edges, in depth-first order -/
+def reach (g : DGraph) : Nat → Nat → List Nat
+  | 0, i => if (g[i]?).isSome then [i] else []
+  | fuel + 1, i =>
+    match g[i]? with
+    | none => []
+    | some p => i :: p.imports.flatMap (reach g fuel)
+
+/-- the statement on one lookup: a fully-qualified name whose package the analysed program uses (a complete
+package of that path is among the packages reachable from the analysed one) is resolved to a package of
+that path of the program itself, never through the engine's own importer -/
+def depHolds (g : DGraph) (root : Nat) (path : Bytes) (o : PkgSource) : Bool :=
+  let used := (reach g g.length root).filter fun d =>
+    match g[d]? with
+    | some p => p.path == path && (p.complete || d == root)
+    | none => false
+  match o with
+  | .graph d => used.contains d
+  | .importer => used.isEmpty
+
 end SpecC20
